@@ -738,12 +738,12 @@ class Picker(object):
 def gen_random_history(rng, length):
     setup = gen_tree(rng)
     reg = Reg()
-    for op in setup:
-        apply_op(reg, op)
-    pk = Picker(rng, reg)
     steps = []
     try:
         with deadline(10.0):
+            for op in setup:
+                apply_op(reg, op)
+            pk = Picker(rng, reg)
             return _grow_history(rng, reg, pk, setup, steps, length)
     except Stuck:
         note_stuck(setup, steps)
